@@ -116,7 +116,78 @@ class Buf:
 UNKNOWN = None      # content of a file after a write that was reported as failed
 
 
+# ---- unnamed buffer: which writes give it a name, and which of them make it clean
+UN_ACTIONS = ["w !cat >/dev/null", "%w !cat >/dev/null", "1w part", "2,3w part", "w whole", "1,$w whole", "w! whole", "1w! part", "w", "2,3w! whole", "w part"]
+
+
+def un_model(actions):
+    """returns (name, dirty, files) after the actions on an unnamed buffer holding three appended lines"""
+    text = ["u1", "u2", "u3"]
+    name, dirty, files = "", True, {}
+    for a in actions:
+        if "!cat" in a:
+            continue                        # piped to a command: no file involved
+        parts = a.split()
+        cmd = parts[0]
+        target = parts[1] if len(parts) > 1 else name
+        if not target:
+            continue                        # :w without a name
+        force = cmd.endswith("!")
+        rng = cmd.rstrip("!")[:-1]
+        lines = {"": text, "%": text, "1,$": text, "1": text[:1], "2,3": text[1:3]}[rng]
+        if target in files and not force and target != name:
+            continue                        # refused: file exists
+        files[target] = list(lines)
+        if name == "":
+            name = target
+        if name == target:
+            dirty = lines != text
+    return name, dirty, files
+
+
+def run_unnamed(env, c):
+    d = env.fresh()
+    script = "se noaw\nse nowa\na\nu1\nu2\nu3\n.\n" + "".join(a + "\n" for a in c["actions"]) + "ec @@L@@\nb\nec @@M@@\nq\nec @@ALIVE@@\n"
+    r = runner.run_editor(env.paths["vi"], ["-s", "-e"], script.encode() + runner.EX_TRAILER, d, want_stats=False)
+    if r.timeout or r.crashed():
+        return Outcome(not r.crashed(), False, ["unnamed"], inconclusive=r.timeout, detail={"why": "editor crashed", "sig": r.signature(), "actions": c["actions"]})
+    out = r.out.decode("utf-8", "replace")
+    name, dirty, files = un_model(c["actions"])
+    m = re.search(r"@@L@@(.*?)@@M@@", out, re.S)
+    rows = parse_list(m.group(1)) if m else []
+    det = {"actions": c["actions"], "model": {"name": name, "modified": dirty}, "listing": rows}
+    if not rows:
+        return Outcome(False, True, ["unnamed"], detail=dict(det, why="no buffer listing"))
+    if rows[0][2] != name:
+        return Outcome(False, True, ["unnamed"], detail=dict(det, why="the buffer is called %r, expected %r (only a file the text was written to gives it a name)" % (rows[0][2], name)))
+    if bool(rows[0][3]) != dirty:
+        return Outcome(False, True, ["unnamed"], detail=dict(det, why="modified flag is %s although the whole text %s in its file" % (rows[0][3], "is not" if dirty else "is")))
+    alive = "@@ALIVE@@" in out
+    if alive != dirty:
+        return Outcome(False, True, ["unnamed"], detail=dict(det, why=":q %s" % ("refused although the whole text was written to the buffer's file" if alive else "exited and discarded text that is in no file")))
+    for f, ls in files.items():
+        if runner.read_file(d, f) != gen.to_bytes(ls):
+            return Outcome(False, True, ["unnamed"], detail=dict(det, why="file %s does not hold the written lines" % f))
+    return Outcome(True, True, ["unnamed"])
+
+
+def extra(env, tier, seed):
+    import itertools
+    seqs = [[a] for a in UN_ACTIONS] + [list(t) for t in itertools.product(UN_ACTIONS, repeat=2)]
+    if tier != "quick":
+        seqs += [list(t) for t in itertools.product(UN_ACTIONS[:8], repeat=3)]
+    viol = []
+    for sq in seqs:
+        o = run_unnamed(env, {"kind": "unnamed", "actions": sq})
+        if not o.ok and not o.inconclusive and len(viol) < 3:
+            viol.append({"case": {"kind": "unnamed", "actions": sq}})
+    return [{"name": "unnamed_buffer_all_write_sequences_le_%d" % (2 if tier == "quick" else 3), "exhaustive": True, "evaluations": len(seqs), "distinct_nontrivial": len(seqs),
+             "alphabet": UN_ACTIONS, "samples": [["2,3w part"], ["w !cat >/dev/null"], ["1w part", "w"]], "violations": viol}]
+
+
 def run_case(env, c):
+    if c.get("kind") == "unnamed":
+        return run_unnamed(env, c)
     d = env.fresh()
     fpath = (c.get("fault") or {}).get("path")
     disk = {}
@@ -212,10 +283,9 @@ def run_case(env, c):
                     b.forced_dirty = False
                     if snap != disk[cur]:
                         return fail(":e! did not reload the file's content", i)
-                else:
-                    b.hist_known = False
-                    b.saved = snap           # CAL: :e! on a file that does not exist keeps the text and marks it clean
-                    b.saved_id = b.ids[b.cur]
+                elif changed:
+                    return fail(":e! on a file that does not exist changed the text", i)
+                # (the file does not exist: nothing is read, the buffer keeps its text and its modified state - F29, fixed 24c3fb3)
             elif k in ("wmod", "modwmod", "reloadmod"):
                 pass        # handled below (the written / reloaded text is known, the final text is observed)
             elif k in ("nop", "w", "wpart", "wother", "sw", "swf") and changed:
@@ -234,7 +304,7 @@ def run_case(env, c):
                 if cur in disk:
                     written = disk[cur]
                 else:
-                    written = b.text        # CAL: :e! on a file that does not exist keeps the text and marks it clean
+                    written = None          # nothing to reload: the +command is just another change
             elif ok_write:
                 if k == "wmod":
                     written = b.text
